@@ -126,6 +126,50 @@ example : (let p : Params := { qcap := 4, kinds := { Kinds.ofGen with clipboard 
     | some s => s.pend.isEmpty && s.clipGot.isEmpty && s.clipWaiting
     | none => false) = true := by decide
 
+/-- `inputsOf` (this file's lemmas) and `inputSeqs` (the flow lemmas) are the same function. -/
+private theorem inputsOf_eq_inputSeqs : ∀ ls : List Label, inputsOf ls = VaxisModel.Lemmas.InputFlow.inputSeqs ls
+  | [] => rfl
+  | l :: t => by
+    have ih := inputsOf_eq_inputSeqs t
+    cases l <;> simp [inputsOf, VaxisModel.Lemmas.InputFlow.inputSeqs] at ih ⊢ <;> exact ih
+
+/-- **Safety and liveness together: every stream is delivered completely.**  For every queue
+capacity ≥ 1, every decoder and every stream of well-formed, parser-deliverable reports (keys in any
+encoding, SGR mouse, focus, paste brackets, replies of every shape, cursor-position reports) there
+is a schedule from the initial state — the stream's sequences in order, otherwise only goroutine
+steps, the clipboard time-out and the application reading events — after which the goroutine is at
+its `select`, the queue is empty, and the application HAS RECEIVED every user-input event of the
+stream other than the keys encoded `CSI … R`: exactly once, in stream order, decoded and paste-marked
+as the grammar-level spec says.  (`input_never_lost_with_cpr` says nothing is lost on any run;
+this adds that a run delivering everything exists for every stream.) -/
+theorem stream_delivered_completely (qcap : Nat) (hq : 0 < qcap) (b64 : List Nat → Option (List Nat))
+    (rs : List VaxisModel.Lemmas.InputEvents.SReport) (hw : ∀ r ∈ rs, r.Wf) (hs : ∀ r ∈ rs, WfSeq r.seq) :
+    ∃ ls s', run (srcParams qcap b64) {} ls = some s' ∧ s'.pend = [] ∧ s'.queue = [] ∧
+      VaxisModel.Lemmas.InputFlow.inputSeqs ls = rs.map VaxisModel.Lemmas.InputEvents.SReport.seq ∧
+      (∀ l ∈ ls, l.internal = true ∨ ∃ q, l = .input q) ∧
+      ((VaxisModel.Lemmas.InputEvents.visible s'.delivered).filter VaxisModel.Lemmas.InputFlow.uiU).filter VaxisModel.Lemmas.InputFlowCpr.unambiguous =
+        (VaxisModel.Spec.InputEvents.specEvents false (rs.map VaxisModel.Lemmas.InputEvents.SReport.spec)).filter
+          VaxisModel.Lemmas.InputFlowCpr.unambiguous := by
+  have hwf : ∀ q ∈ rs.map VaxisModel.Lemmas.InputEvents.SReport.seq, WfSeq q := by
+    intro q hq'
+    obtain ⟨r, hr, rfl⟩ := List.mem_map.mp hq'
+    exact hs r hr
+  obtain ⟨ls1, s1, hr1, hp1, hq1, hi1, hl1⟩ :=
+    stream_consumed (srcParams qcap b64) hq VaxisModel.Props.C03.send_kinds_safe _ ({} : Sys) hwf (by simp)
+  obtain ⟨s2, hr2, hp2, hq2⟩ := drain_queue (srcParams qcap b64) s1.queue.length s1 rfl hp1
+  have hrun : run (srcParams qcap b64) {} (ls1 ++ List.replicate s1.queue.length .consume) = some s2 := by
+    rw [run_append _ ls1 _ _ s1 hr1, hr2]
+  have hin : VaxisModel.Lemmas.InputFlow.inputSeqs (ls1 ++ List.replicate s1.queue.length .consume) =
+      rs.map VaxisModel.Lemmas.InputEvents.SReport.seq := by
+    rw [← inputsOf_eq_inputSeqs, inputsOf_append, hi1, inputsOf_consumes, List.append_nil]
+  refine ⟨_, s2, hrun, hp2, hq2, hin, ?_, ?_⟩
+  · intro l hl
+    rcases List.mem_append.mp hl with h | h
+    · exact hl1 l h
+    · rw [List.eq_of_mem_replicate h]; exact Or.inl rfl
+  · have h := VaxisModel.Props.C03.input_never_lost_with_cpr (srcParams qcap b64) rs _ ({} : Sys) s2 hin hw hs (by trivial) hrun
+    simpa [VaxisModel.Lemmas.InputFlow.flow, hp2, hq2, VaxisModel.Lemmas.InputEvents.posted, VaxisModel.Lemmas.InputEvents.visible] using h
+
 /-- Why `0 < qcap` is needed (it is what `New()` guarantees, `queue_capacity_positive`): with a
 queue without room a blocking post is never enabled and nothing can be consumed. -/
 example : (let p := srcParams 0 (fun _ => none)
